@@ -52,14 +52,14 @@ def main(argv: List[str]) -> int:
             except Exception:
                 continue
             stop = False
-            for style in ("plain", "twins"):
+            for style in ("plain", "twins", "deep"):
                 sweeps_mod.EXTRAS_STYLE = style
                 try:
                     jx = inject_extras(mm, t, j)
                 finally:
                     sweeps_mod.EXTRAS_STYLE = "plain"
                 sweep += 1
-                tag = "" if style == "plain" else ":look-alike-keys"
+                tag = {"plain": "", "twins": ":look-alike-keys", "deep": ":deep-payload"}[style]
                 try:
                     obj = conv.structure(jx, cls)
                     out = conv.unstructure(obj)
